@@ -78,6 +78,16 @@ def parseLib (s : String) : Option (Option Bytes) :=
 def c31Step (s : Sess) (line : String) : Sess × String :=
   match fields line with
   | ["reset"] => (⟨init, []⟩, "ok")
+  -- `guard <d> <n> <errors> <ref of the cache entry's bytes> <uncached enc result>`: the theorems' guards in the
+  -- CURRENT (pre-op) cache state: is `encode(d, n, errors)` a hit (on which bytes), `lenientHit`, `nonCanonicalHit`
+  | ["guard", d, n, e, rf, f] =>
+    match hexOr d, hexOr n, hexOr e, parseLib rf, parseFresh f with
+    | some d, some n, some e, some rf, some f =>
+      let h := match encHit s.st.cache d n e with | some x => showBytes x | none => "miss"
+      let l := if lenientHitWith s.st.cache d n rf then "1" else "0"
+      let c := if nonCanonicalHitWith s.st.cache d n e f then "1" else "0"
+      (s, s!"H:{h} L:{l} N:{c}")
+    | _, _, _, _, _ => bad s
   -- `content <i> <strict> <fresh>`: the cache-free reading `contentOf` of message i in the current model state
   | ["content", i, st, f] =>
     match parseBool i, parseBool st, parseFresh f with
